@@ -64,6 +64,7 @@ import (
 	"github.com/q191201771/lal/pkg/hls"
 	"github.com/q191201771/lal/pkg/logic"
 	"github.com/q191201771/lal/pkg/rtsp"
+	"github.com/q191201771/naza/pkg/nazalog"
 
 	"verif/drv/pbt"
 	"verif/gen"
@@ -457,8 +458,22 @@ type env struct {
 	stalled bool
 }
 
+// lalLogFile: development aid (C05_LAL_LOG=1): lal's own log (info level) goes to a per-process file whose tail
+// is attached to a publisher-dropped violation.
+var lalLogFile = ""
+
 func newEnv(o Out, stream string) *env {
 	e := &env{s: inproc.New(toCfg(o)), stream: stream}
+	if os.Getenv("C05_LAL_LOG") != "" {
+		lalLogFile = fmt.Sprintf("/tmp/c05lal-%d.log", os.Getpid())
+		_ = os.Remove(lalLogFile)
+		_ = nazalog.Init(func(op *nazalog.Option) {
+			op.Level = nazalog.LevelInfo
+			op.Filename = lalLogFile
+			op.IsToStdout = false
+			op.AssertBehavior = nazalog.AssertError
+		})
+	}
 	if o.Hook {
 		e.hook = &hookRec{by: map[string]*hookStat{}}
 		e.s.SM.WithOnHookSession(func(uniqueKey, streamName string) logic.ICustomizeHookSessionContext {
@@ -698,6 +713,11 @@ func drive(e *env, c Case) *pbt.Violation {
 		}
 		gone = g
 		lastTs = m.Ts
+		if rf, ok := f.(*rtmpFeeder); ok && !gone && strings.HasPrefix(m.Class, "doc-close/") {
+			// "idle" is also reported the instant lal closes its read side, a moment before the connection counts as
+			// gone: a documented close is given time to complete, so that it is not charged to the next message
+			gone = rf.p.Conn.WaitPeerDone(5 * time.Second)
+		}
 		if (m.Type == gen.TypeAudio || m.Type == gen.TypeVideo) && len(payload) > 0 {
 			published = append(published, pubRec{typ: m.Type, ts: m.Ts, payload: payload})
 		}
@@ -706,8 +726,8 @@ func drive(e *env, c Case) *pbt.Violation {
 				pbt.Count("publisher-closed-by-documented-case", 1)
 			} else {
 				// P1: an in-domain message is dropped or forwarded, the session goes on
-				return pbt.V("publisher-dropped", "lal ended the publisher's session (%s path) after message %d (type %d ts %d class %s, %d bytes %s), a well-framed message of the forwarded domain; the property lets lal drop or forward the payload, not the publisher (%d messages were still to come)",
-					c.Path, k, m.Type, m.Ts, m.Class, len(payload), prefixHex(payload, 48), len(c.Msgs)-1-k)
+				return withLalLog(pbt.V("publisher-dropped", "lal ended the publisher's session (%s path) after message %d (type %d ts %d class %s, %d bytes %s), a well-framed message of the forwarded domain; the property lets lal drop or forward the payload, not the publisher (%d messages were still to come)",
+					c.Path, k, m.Type, m.Ts, m.Class, len(payload), prefixHex(payload, 48), len(c.Msgs)-1-k))
 			}
 		} else if strings.HasPrefix(m.Class, "doc-close/") {
 			pbt.Count("documented-close-case-not-closed", 1)
@@ -1081,4 +1101,18 @@ func TestPublishPayload(t *testing.T) {
 		ID: "C05", Name: "publish-payload", Gen: genCase, Run: run, Classify: classify,
 		Quick: 3000, Thorough: 10000, Isolate: true,
 	})
+}
+
+// withLalLog appends the tail of lal's log (C05_LAL_LOG=1) to a violation.
+func withLalLog(v *pbt.Violation) *pbt.Violation {
+	if lalLogFile == "" {
+		return v
+	}
+	nazalog.Sync()
+	b, _ := os.ReadFile(lalLogFile)
+	if len(b) > 3500 {
+		b = b[len(b)-3500:]
+	}
+	v.Detail += "\nlal log tail:\n" + string(b)
+	return v
 }
